@@ -127,6 +127,20 @@ Section C18.
   Lemma seps_cons x r : seps (x :: r) = (match r with y :: _ => sep x y | [] => true end && seps r)%bool.
   Proof. reflexivity. Qed.
 
+  Lemma render_item L c rest :
+    render_list ([KText (indent ind L)] ++ c :: [KText NL] ++ rest)
+    = repeat_str ind L ++ render c ++ NL ++ render_list rest.
+  Proof.
+    unfold render_list. cbn [app flat_map render]. unfold indent.
+    rewrite (esc_ws_indent _ (ws_indent_repeat ind L ind_ws)), esc_NL. reflexivity.
+  Qed.
+
+  Lemma kids_out_nontext rec L prev x r : is_text x = false ->
+    kids_out ind rec L prev (x :: r)
+    = (if (has_ind ind && legit_before prev x)%bool then [KText (indent ind L)] else [])
+      ++ rec L x :: (if legit_after x (hd_error r) then [KText NL] else []) ++ kids_out ind rec L (Some x) r.
+  Proof. destruct x; cbn [is_text]; intros H; try discriminate; reflexivity. Qed.
+
   Lemma kids_out_lines L l :
     Forall (fun k => data_style k = true -> render (p_node ind align L k) = simple_pp ind align L k) l ->
     forall prev, sep_opt prev (hd (Comment []) l) = true \/ l = [] ->
@@ -143,34 +157,20 @@ Section C18.
     assert (Hrec : render_list (kids_out ind (p_node ind align) L (Some x) r) = flat_map (line L) r).
     { apply IH; [|exact Hs2|exact Hd2]. destruct r as [|y r']; [right; reflexivity|left; exact Hs1]. }
     cbn [flat_map].
-    destruct x as [ns name attrs kids|s|s|t c].
-    - cbn [kids_out]. fold (kids_out ind (p_node ind align) L).
-      rewrite has_ind_true, (legit_before_sep prev _ Hp), (legit_after_sep _ _ Hnext). cbn [andb].
-      unfold render_list. cbn [app flat_map]. rewrite flat_map_app. cbn [flat_map].
-      fold (render_list (kids_out ind (p_node ind align) L (Some (Tag ns name attrs kids)) r)). rewrite Hrec.
-      rewrite (Hx Hdx). unfold line at 1. cbn [blank render]. rewrite app_nil_r.
-      unfold indent. rewrite (esc_ws_indent _ (ws_indent_repeat ind L ind_ws)).
-      rewrite esc_NL, <- !app_assoc. reflexivity.
-    - cbn [kids_out]. fold (kids_out ind (p_node ind align) L).
+    destruct (is_text x) eqn:Et.
+    - destruct x as [| s | |]; try discriminate.
+      cbn [kids_out]. fold (kids_out ind (p_node ind align) L).
       unfold render_list. rewrite flat_map_app.
       fold (render_list (kids_out ind (p_node ind align) L (Some (Text s)) r)). rewrite Hrec.
       fold (render_list (text_out ind L prev s (hd_error r))).
       rewrite text_out_line; [reflexivity| |exact Hp|exact Hnext].
       destruct s; [discriminate|discriminate].
-    - cbn [kids_out]. fold (kids_out ind (p_node ind align) L).
+    - rewrite (kids_out_nontext _ L prev x r Et).
       rewrite has_ind_true, (legit_before_sep prev _ Hp), (legit_after_sep _ _ Hnext). cbn [andb].
-      unfold render_list. cbn [app flat_map]. rewrite flat_map_app. cbn [flat_map].
-      fold (render_list (kids_out ind (p_node ind align) L (Some (Comment s)) r)). rewrite Hrec.
-      unfold line at 1. cbn [blank render p_node simple_pp]. rewrite app_nil_r.
-      unfold indent. rewrite (esc_ws_indent _ (ws_indent_repeat ind L ind_ws)).
-      rewrite esc_NL, <- !app_assoc. reflexivity.
-    - cbn [kids_out]. fold (kids_out ind (p_node ind align) L).
-      rewrite has_ind_true, (legit_before_sep prev _ Hp), (legit_after_sep _ _ Hnext). cbn [andb].
-      unfold render_list. cbn [app flat_map]. rewrite flat_map_app. cbn [flat_map].
-      fold (render_list (kids_out ind (p_node ind align) L (Some (PI t c)) r)). rewrite Hrec.
-      unfold line at 1. cbn [blank render p_node simple_pp]. rewrite app_nil_r.
-      unfold indent. rewrite (esc_ws_indent _ (ws_indent_repeat ind L ind_ws)).
-      rewrite esc_NL, <- !app_assoc. reflexivity.
+      rewrite render_item, Hrec, (Hx Hdx).
+      assert (El : line L x = repeat_str ind L ++ simple_pp ind align L x ++ NL)
+        by (unfold line; destruct x; try reflexivity; discriminate).
+      rewrite El, <- !app_assoc. reflexivity.
   Qed.
 
   Theorem pretty_is_simple n : forall L, data_style n = true ->
@@ -183,13 +183,14 @@ Section C18.
     destruct kids as [|k0 kr].
     - cbn [null negb handle_kids flat_map]. rewrite !app_nil_r, <- !app_assoc. reflexivity.
     - cbn [null negb]. unfold handle_kids. rewrite has_ind_true.
+      remember (k0 :: kr) as ks eqn:Eks.
       rewrite !flat_map_app. cbn [flat_map render]. rewrite !app_nil_r.
-      fold (render_list (kids_out ind (p_node ind align) (S L) None (k0 :: kr))).
-      rewrite (kids_out_lines (S L) (k0 :: kr)).
+      fold (render_list (kids_out ind (p_node ind align) (S L) None ks)).
+      rewrite (kids_out_lines (S L) ks).
       + unfold indent. rewrite (esc_ws_indent _ (ws_indent_repeat ind L ind_ws)), esc_NL.
         unfold line. rewrite <- !app_assoc. reflexivity.
       + apply Forall_forall. intros k Hin Hdk. rewrite Forall_forall in IH. exact (IH k Hin (S L) Hdk).
-      + left. reflexivity.
+      + left. subst ks. reflexivity.
       + exact Hs.
       + exact Hk.
   Qed.
